@@ -242,3 +242,37 @@ def register(mut):
         _ptr->resolve_tracer.charge(_ptr);''',
         '''        :_ptr(std::make_shared<future_internal>(std::forward<Fn>(fn))) {
 ''', ['C17'])
+    mut('discard-no-self-delete-when-ready', 'future.h',
+        '''    auto x = new Awt(std::forward<Fn>(fn), w);
+    if (!w) x->resume();''',
+        '''    auto x = new Awt(std::forward<Fn>(fn), w);
+    if (!w) (void)x;''', ['C18'])
+    mut('future-with-cb-delete-before-call', 'future.h',
+        '''            _this->_fn(*_this);
+            delete _this;''',
+        '''            auto f = std::move(_this->_fn);
+            delete _this;
+            f(*_this);''', ['C18'])
+    mut('conv-drops-converter-exception', 'future_conv.h',
+        '''            return p(fn(*_this->_fut, ctx));
+        } catch (...) {
+            return p(std::current_exception());''',
+        '''            return p(fn(*_this->_fut, ctx));
+        } catch (...) {
+            return p(cocls::drop);''', ['C18'])
+    mut('callback-await-swallows-exception', 'callback_awaiter.h',
+        '''    } catch (...) {
+        fn(await_result<RetVal>{});
+    }''',
+        '''    } catch (...) {
+    }''', ['C18'])
+    mut('call-fn-awaiter-double', 'future.h',
+        '''        _fut << std::forward<Fn>(xfn);
+        if (!_fut.subscribe(this)) {
+            this->resume();
+        }''',
+        '''        _fut << std::forward<Fn>(xfn);
+        if (!_fut.subscribe(this)) {
+            this->resume();
+            this->resume();
+        }''', ['C18'])
